@@ -21,6 +21,12 @@ func init() { register("C19", c19) }
 func c19(r *core.Report) {
 	c19SettingsCopy(r)
 	c19Customizer(r)
+	c19Reason(r)
+	r.RunRule("C19.wire", "the caller's message function reaches every schema validation of the filter: ValidateRequestBody, ValidateParameter and ValidateResponse pass SetSchemaErrorMessageCustomizer exactly when Options.customSchemaErrorFunc is set, and add it to the option list before the list is used (a validation that runs before the option is added reports with the default text, which quotes the value)", 3, func() {
+		for _, fn := range []string{"ValidateRequestBody", "ValidateParameter", "ValidateResponse"} {
+			checkWiring(r, fn, []wiringRow{{"SetSchemaErrorMessageCustomizer", "customSchemaErrorFunc", true}}, nil)
+		}
+	})
 	p := r.Prog
 	p.BuildSSA()
 	r.Assumption("user-registered format validators and custom regex compilers are outside the repository: their error text is copied into Reason by err.Error(); the repo cannot constrain them")
@@ -30,7 +36,9 @@ func c19(r *core.Report) {
 	r.RunRule("C19.taint", "no data flow from the validated value (parameter `value` of VisitJSON*/IsMatching*/visitJSON and everything derived from it by element access, range values, conversion, type assertion, string concatenation, library calls and fmt formatting - verb-aware: an operand consumed by %T is a type name) into any store to SchemaError.Reason; err.Error() is resolved through the VTA call graph and refined by errors.As tests", 32, func() {
 		t := core.NewTaint(p)
 		t.IsSink = func(owner *types.Named, f *types.Var) bool {
-			return owner == schemaErr && f.Name() == "Reason"
+			// Origin too: SchemaError.Error prints the origin's text in place of the reason, also
+			// with the details switched off
+			return owner == schemaErr && (f.Name() == "Reason" || f.Name() == "Origin")
 		}
 		// sources
 		nsrc := 0
@@ -85,6 +93,7 @@ func c19(r *core.Report) {
 		}
 		nStores := 0
 		perFn := map[string]int{}
+		perFnOrigin := map[string]int{}
 		for _, fn := range t.Funcs {
 			for _, b := range fn.Blocks {
 				for _, in := range b.Instrs {
@@ -101,19 +110,26 @@ func c19(r *core.Report) {
 						continue
 					}
 					stt := n.Underlying().(*types.Struct)
-					if stt.Field(fa.Field).Name() != "Reason" {
+					field := stt.Field(fa.Field).Name()
+					if field != "Reason" && field != "Origin" {
 						continue
 					}
-					nStores++
 					fname := fn.String()
-					perFn[fname]++
-					key := fmt.Sprintf("reason-store:%s#%d", strings.TrimPrefix(fname, "(*github.com/getkin/kin-openapi/"), perFn[fname])
+					var key string
+					if field == "Reason" {
+						nStores++
+						perFn[fname]++
+						key = fmt.Sprintf("reason-store:%s#%d", strings.TrimPrefix(fname, "(*github.com/getkin/kin-openapi/"), perFn[fname])
+					} else {
+						perFnOrigin[fname]++
+						key = fmt.Sprintf("origin-store:%s#%d", strings.TrimPrefix(fname, "(*github.com/getkin/kin-openapi/"), perFnOrigin[fname])
+					}
 					if h, bad := hit[fmt.Sprintf("%p/%d", fn, st.Pos())]; bad {
-						r.Bad(key, p.Pos(st.Pos()), "the rejected value can flow into SchemaError.Reason: "+h.Why)
+						r.Bad(key, p.Pos(st.Pos()), "the rejected value can flow into SchemaError."+field+" (Error() prints the origin's text when there is one): "+h.Why)
 					} else if _, isConst := st.Val.(*ssa.Const); isConst {
 						r.Trivial(key, p.Pos(st.Pos()), "constant reason")
 					} else {
-						r.OK(key, p.Pos(st.Pos()), "computed reason, no flow from the value")
+						r.OK(key, p.Pos(st.Pos()), "computed "+strings.ToLower(field)+", no flow from the value")
 					}
 				}
 			}
@@ -251,6 +267,79 @@ func c19Customizer(r *core.Report) {
 				} else {
 					r.Bad(key, p.Pos(el.lit.Pos()), fmt.Sprintf("the SchemaError (%s) built in %s does not carry the settings' message customiser: a caller who installed one (WithCustomSchemaErrorFunc, SetSchemaErrorMessageCustomizer) to keep values out of messages gets the default text for this error, and that text quotes the rejected value", el.field, core.FuncName(d)))
 				}
+			}
+		}
+	})
+}
+
+// litHasKey reports whether the composite literal gives the field, or the variable the literal is
+// assigned to gets it assigned later in the function.
+func litHasKey(info *types.Info, body *ast.BlockStmt, lit *ast.CompositeLit, field string) bool {
+	for _, e := range lit.Elts {
+		if kv, ok := e.(*ast.KeyValueExpr); ok {
+			if id, ok := kv.Key.(*ast.Ident); ok && id.Name == field {
+				return true
+			}
+		}
+	}
+	var holder types.Object
+	for _, n := range core.PathTo(body, lit) {
+		if as, ok := n.(*ast.AssignStmt); ok && len(as.Lhs) == 1 && len(as.Rhs) == 1 {
+			rhs := ast.Unparen(as.Rhs[0])
+			if u, ok := rhs.(*ast.UnaryExpr); ok {
+				rhs = ast.Unparen(u.X)
+			}
+			if rhs == ast.Expr(lit) {
+				if id, ok := ast.Unparen(as.Lhs[0]).(*ast.Ident); ok {
+					holder = info.ObjectOf(id)
+				}
+			}
+		}
+	}
+	if holder == nil {
+		return false
+	}
+	found := false
+	ast.Inspect(body, func(n ast.Node) bool {
+		if as, ok := n.(*ast.AssignStmt); ok && as.Pos() > lit.Pos() {
+			for _, l := range as.Lhs {
+				if sel, ok := ast.Unparen(l).(*ast.SelectorExpr); ok && sel.Sel.Name == field {
+					if id, ok := ast.Unparen(sel.X).(*ast.Ident); ok && info.ObjectOf(id) == holder {
+						found = true
+					}
+				}
+			}
+		}
+		return true
+	})
+	return found
+}
+
+// c19Reason: a message function that answers with the reason alone gets something to answer with.
+// SchemaError.Error falls back to the default text -- which quotes the rejected value -- when the
+// customiser returns the empty string, and a reason-only customiser returns the empty string for
+// an error built without a reason.
+func c19Reason(r *core.Report) {
+	p := r.Prog
+	info := p.Pkg("openapi3").TypesInfo
+	r.RunRule("C19.reason", "every validation error has a reason: each SchemaError composite literal in a function of package openapi3 that has a validation-settings parameter gives Reason (in the literal, or assigned to the variable holding it): for an error without one a reason-only message function returns the empty string and Error() falls back to the default text with the value", 25, func() {
+		st := p.NamedType("openapi3", "schemaValidationSettings")
+		for _, d := range p.AllDecls("openapi3") {
+			if d.Body == nil {
+				continue
+			}
+			has := false
+			for _, f := range d.Type.Params.List {
+				if pt, ok := info.TypeOf(f.Type).(*types.Pointer); ok && core.NamedOf(pt) == st {
+					has = true
+				}
+			}
+			if !has {
+				continue
+			}
+			for i, el := range schemaErrLits(info, d.Body) {
+				key := fmt.Sprintf("reason:%s#%d(%s)", core.FuncName(d), i+1, el.field)
+				r.Check(litHasKey(info, d.Body, el.lit, "Reason"), key, p.Pos(el.lit.Pos()), "the error has a reason", fmt.Sprintf("the SchemaError (%s) built in %s has no Reason: a message function that returns the reason alone returns \"\" for it, and Error() then falls back to the default text, which quotes the rejected value", el.field, core.FuncName(d)))
 			}
 		}
 	})
